@@ -20,7 +20,8 @@ Definition agree (s i : cres) : Prop :=
 Lemma leaf_shows n v a : coerce_leaf n v = Some a -> shows a a.
 Proof.
   unfold coerce_leaf. destruct v; try discriminate; try (intros H; injection H as <-; apply sh_same; intros; discriminate).
-  destruct (String.eqb n "ID"); intros H; injection H as <-; apply sh_same; intros; discriminate.
+  - destruct (String.eqb n "ID"); intros H; injection H as <-; apply sh_same; intros; discriminate.
+  - destruct (String.eqb n "Fragile" && String.eqb s "bad"); [discriminate|]. intros H; injection H as <-; apply sh_same; intros; discriminate.
 Qed.
 
 (** the list loop *)
